@@ -98,6 +98,31 @@ impl LKHSearch {
         // restore original unassigned jobs
         new_solution.solution.unassigned = orig_solution.solution.unassigned.clone();
 
+        // NOTE: synchronize job lists with the routes as some of them are restored from original solution
+        let assigned: HashSet<_> =
+            new_solution.solution.routes.iter().flat_map(|route_ctx| route_ctx.route().tour.jobs().cloned()).collect();
+        new_solution.solution.ignored.retain(|job| !assigned.contains(job));
+        new_solution.solution.required.retain(|job| !assigned.contains(job));
+        new_solution.solution.unassigned.retain(|job, _| !assigned.contains(job));
+        let unassigned = &new_solution.solution.unassigned;
+        new_solution.solution.ignored.retain(|job| !unassigned.contains_key(job));
+        new_solution.solution.required.retain(|job| !unassigned.contains_key(job));
+
+        let lost = new_solution
+            .problem
+            .jobs
+            .all()
+            .iter()
+            .filter(|job| {
+                !assigned.contains(*job)
+                    && !new_solution.solution.unassigned.contains_key(*job)
+                    && !new_solution.solution.ignored.contains(*job)
+                    && !new_solution.solution.required.contains(*job)
+            })
+            .cloned()
+            .collect::<Vec<_>>();
+        new_solution.solution.required.extend(lost);
+
         // recalculate solution state if we do
         new_solution.restore();
 
